@@ -7,7 +7,7 @@
    Bytes are identified by their stream offset; "content" is the identity function on offsets
    (the harness fills every write with position-determined data and checks that a chunk
    handed out for offsets [a,b) carries exactly the data of positions [a,b)). *)
-EXTENDS Naturals, FiniteSets, IntervalSets
+EXTENDS Naturals, FiniteSets, IntervalSets, ReasmOps
 
 CONSTANT MaxOffset      \* largest legal stream offset (2^62-1 in the code; scaled in models)
 
@@ -44,23 +44,17 @@ ObsReadingComplete == final # None /\ final = start
 
 ----------------------------------------------------------------------------
 \* The verdict of write(o, n, fin): "ok" | "oor" | "fin"
-WriteVerdict(o, n, fin) ==
-  LET end == o + n IN
-  IF end > MaxOffset THEN "oor"
-  ELSE IF fin /\ final # None /\ end # final THEN "fin"
-  ELSE IF fin /\ final = None /\ maxRecv > end THEN "fin"
-  ELSE IF ~fin /\ final # None /\ end > final THEN "fin"
-  ELSE "ok"
+Rec0 == [rcvd |-> rcvd, start |-> start, maxRecv |-> maxRecv, final |-> final]
+WriteVerdict(o, n, fin) == RWriteVerdict(Rec0, o, n, fin, MaxOffset)
 
 Write(o, n, fin, res) ==
   /\ res = WriteVerdict(o, n, fin)
   /\ IF res = "ok"
-     THEN LET end == o + n
-              lo  == Max2(o, start)
-          IN /\ final'   = IF fin THEN end ELSE final
-             /\ maxRecv' = Max2(maxRecv, end)
-             /\ rcvd'    = IvInsert(rcvd, lo, end)
-             /\ start'   = start
+     THEN LET w == RWrite(Rec0, o, n, fin)
+          IN /\ final'   = w.final
+             /\ maxRecv' = w.maxRecv
+             /\ rcvd'    = w.rcvd
+             /\ start'   = w.start
      ELSE UNCHANGED rvars     \* a rejected write leaves the buffer untouched
 
 \* one call of pop_watermarked(w) that returned n bytes (n = 0: None).  The chunking is the
@@ -72,11 +66,7 @@ Pop(w, n) ==
   /\ rcvd'  = IvRemoveBelow(rcvd, start + n)
   /\ UNCHANGED <<maxRecv, final>>
 
-SkipVerdict(n) ==
-  IF n = 0 THEN "ok"
-  ELSE IF start + n > MaxOffset THEN "oor"
-  ELSE IF final # None /\ final < start + n THEN "fin"
-  ELSE "ok"
+SkipVerdict(n) == RSkipVerdict(Rec0, n, MaxOffset)
 
 Skip(n, res) ==
   /\ res = SkipVerdict(n)
